@@ -28,7 +28,8 @@
 //     without break/continue/successful return inside (the loop becomes GenPrelude.for_range
 //     carrying the tuple of outer variables assigned in the body); nested blocks;
 //     `if err := f(..); err != nil { return zero.., err }` for a translated f returning only an
-//     error (monadic bind).
+//     error (monadic bind); `a, b, err := f(..)` followed at once by
+//     `if err != nil { return zero.., err }` for a translated f returning values and an error.
 //   - an `if`/`switch` whose branches can fall through is joined on the tuple of outer
 //     variables its branches assign; a successful `return` inside such a branch is not supported.
 //   - expressions: identifiers, field selection, `xs[i]` (Panic when out of range), `len`,
@@ -36,10 +37,13 @@
 //     is only evaluated when Go evaluates it), `== != < <= > >=` on uint64/int/Currency-by-value/
 //     Address/Hash256, uint64 `+ - *` (wrapping), int `+`, the METHOD TABLE, the CONSTANT TABLE,
 //     `types.Hash256{}`, `types.FileContractRevision{}` (zero value), calls of other functions of
-//     the same file that are themselves in the subset (translated on demand),
+//     the same package that are themselves in the subset (translated on demand; a listed function
+//     or a helper is looked up in the target file first, then in the other non-test files of the
+//     package), calls `x.m(..)` of a value-receiver method of x's own local type (programData),
 //     `contractUnlockConditions(hostKey, renterKey).UnlockHash()` with exactly the function's two
 //     types.UnlockKey parameters in that order (-> the oracle parameter `uhexp`; the definition of
-//     contractUnlockConditions in the file must be the expected one),
+//     contractUnlockConditions in the package must be the expected one), or that helper written out:
+//     `types.UnlockConditions{PublicKeys: []types.UnlockKey{renterKey, hostKey}, SignaturesRequired: 2}`,
 //     `x.Cmp(y) OP 0` (only in this shape), `errors.New("..")` / `fmt.Errorf("..", args..)` as the
 //     error of a `return` (-> Err EInvalid; the arguments are still evaluated, they can panic).
 //   - MDM output only (methods with a value receiver of type programData, which becomes the first
@@ -199,12 +203,16 @@ func (g *gofile) usesPkg(n ast.Node, name string) {
 // a translated function
 type gendef struct {
 	name   string
+	moved  string // file of the package the function was found in, when not the target file
 	text   string
 	params []string // Coq binders, for the summary
 }
 
 type unit struct {
-	g       *gofile
+	g       *gofile // the file of the function being translated (its imports are the ones checked)
+	home    *gofile // the target file; the other files of its package are searched after it
+	sibs    []*gofile
+	sibsOK  bool
 	out     *output
 	done    map[string]*gendef
 	order   []*gendef
@@ -213,22 +221,56 @@ type unit struct {
 	ucCheck bool
 }
 
+// find looks a function ("f" or "T.m" for a value-receiver method) up in the target file and then
+// in the other non-test files of its package: a function moved between files of a package is
+// the same function.
+func (u *unit) find(name string) (*gofile, *ast.FuncDecl) {
+	if u.home == nil {
+		u.home = u.g
+	}
+	if fd, ok := u.home.funcs[name]; ok {
+		return u.home, fd
+	}
+	if !u.sibsOK {
+		u.sibsOK = true
+		all, _ := filepath.Glob(filepath.Join(filepath.Dir(u.home.path), "*.go"))
+		sort.Strings(all)
+		for _, p := range all {
+			if p != u.home.path && !strings.HasSuffix(p, "_test.go") {
+				u.sibs = append(u.sibs, parseFile(p))
+			}
+		}
+	}
+	for _, g := range u.sibs {
+		if fd, ok := g.funcs[name]; ok {
+			return g, fd
+		}
+	}
+	return nil, nil
+}
+
 func (u *unit) translate(name string, at ast.Node) *gendef {
 	if d, ok := u.done[name]; ok {
 		return d
 	}
-	fd, ok := u.g.funcs[name]
-	if !ok {
+	g, fd := u.find(name)
+	if fd == nil {
 		if at != nil {
-			fail(at, "function %s is not defined in %s", name, u.g.path)
+			fail(at, "function %s is not defined in the package of %s", name, u.home.path)
 		}
-		panic(unsupported{token.NoPos, fmt.Sprintf("%s: function %s not found", u.g.path, name)})
+		panic(unsupported{token.NoPos, fmt.Sprintf("%s: function %s not found (nor in the other files of the package)", u.home.path, name)})
 	}
 	if u.active[name] {
 		fail(at, "recursive function %s", name)
 	}
 	u.active[name] = true
+	cur := u.g
+	u.g = g
 	d := translateFunc(u, fd, name)
+	u.g = cur
+	if g != u.home {
+		d.moved = filepath.Base(g.path)
+	}
 	delete(u.active, name)
 	u.done[name] = d
 	u.order = append(u.order, d)
@@ -259,7 +301,11 @@ func generate(repo string, o *output) (string, []string) {
 			b.WriteString("Module " + t.module + ".\n\n")
 		}
 		for _, d := range u.order {
-			b.WriteString("(* " + t.file + ": func " + d.name + " *)\n")
+			if d.moved != "" {
+				b.WriteString("(* " + filepath.Join(filepath.Dir(t.file), d.moved) + ": func " + d.name + " *)\n")
+			} else {
+				b.WriteString("(* " + t.file + ": func " + d.name + " *)\n")
+			}
 			b.WriteString(d.text + "\n\n")
 			q := d.name
 			if t.module != "" {
